@@ -402,7 +402,7 @@ fn accepts(prop: &str, tag: &str) -> bool {
         "C07" => matches!(tag, "C07"),
         "C08" => matches!(tag, "C08" | "HUNG" | "PANIC"),
         "C09" => matches!(tag, "C09" | "HUNG" | "PANIC"),
-        "C10" => matches!(tag, "C10"),
+        "C10" => matches!(tag, "C10" | "PANIC"),
         "C11" => matches!(tag, "C11"),
         "C12" => matches!(tag, "C12" | "RES"),
         "C13" => matches!(tag, "C13" | "RES" | "PANIC"),
@@ -1091,6 +1091,73 @@ impl<'a> Engine<'a> {
                         cmp(k.alias_target(), true, &mut self.stats);
                     } else if k.plain() != k {
                         cmp(k.plain(), false, &mut self.stats);
+                    }
+                }
+            }
+            // the async family under controlled wake-up orders: every future-returning probe is gated, failures (up to two)
+            // are placed by the plan, and the plain macro, its task-spawning variant and the alias run under the *same*
+            // release order on the deterministic drivers — which branch fails first in time is then the same for all of them,
+            // and so is the result they have to report
+            // (not for programs with an awaited head: there the plain macro awaits the head before any branch exists while the
+            // task-spawning one already runs the earlier branches, so the feasible wake-up orders differ by design)
+            if cfg!(miri) || all_acts(group[0].case.prog).iter().any(|a| matches!(a.op, Op::SrcAwait)) {
+                continue;
+            }
+            for round in 0..(if thorough { 6 } else { 2 }) {
+                let mut p: Plan = Vec::new();
+                if !ids.is_empty() {
+                    p.push((ids[rng.below(ids.len())], FAIL));
+                    if ids.len() >= 2 && round % 2 == 0 {
+                        let f2 = ids[rng.below(ids.len())];
+                        if f2 != p[0].0 {
+                            p.push((f2, FAIL));
+                        }
+                    }
+                }
+                for tryness in [false, true] {
+                    let fam: Vec<&&CaseCtx> = group.iter().filter(|cx| cx.case.kind.is_async() && cx.case.kind.is_try() == tryness).collect();
+                    let plain = match fam.iter().find(|cx| cx.case.kind.plain() == cx.case.kind && cx.case.kind.alias_target() == cx.case.kind) {
+                        Some(c) => **c,
+                        None => continue,
+                    };
+                    let exp = model::run(plain.case.prog, plain.case.kind, plain.case.hk, &p);
+                    let gates = choose_gates(plain.case, &exp, GateMode::All, &mut rng);
+                    let ngates: usize = gates.iter().map(|g| g.1.len()).sum();
+                    if ngates < 2 {
+                        continue;
+                    }
+                    let (ps, _) = prios(&gates, 2, &mut rng);
+                    let gp = with_gates(&p, &gates);
+                    for pr in ps {
+                        let s = Sched { prio: pr, batch: 1, ..default.clone() };
+                        let mut outs: Vec<(Kind, Outcome)> = Vec::new();
+                        for cx in fam.iter().filter(|cx| cx.case.hk == plain.case.hk) {
+                            if let Some((rec, _, _)) = self.exec(cx, &gp, &s, true) {
+                                outs.push((cx.case.kind, rec.outcome.clone()));
+                            }
+                        }
+                        let base = match outs.iter().find(|(k, _)| *k == plain.case.kind) {
+                            Some((_, o)) => o.clone(),
+                            None => continue,
+                        };
+                        for (k, o) in &outs {
+                            if *k == plain.case.kind {
+                                continue;
+                            }
+                            let same = match (&base, o) {
+                                (Outcome::Done(a), Outcome::Done(b)) => a == b,
+                                (Outcome::Hung(_), _) | (_, Outcome::Hung(_)) | (Outcome::Deadlock(_), _) | (_, Outcome::Deadlock(_)) => true, // judged by C09
+                                (Outcome::Panicked(_), Outcome::Panicked(_)) => true,
+                                _ => false,
+                            };
+                            self.stats.bump("async_pairs_compared_under_the_same_release_order", 1);
+                            if !same {
+                                self.stats.viol_count += 1;
+                                if self.stats.viols.len() < 40 {
+                                    self.stats.viols.push(Viol { tag: "C07".into(), msg: format!("under the same wake-up order {} gives {:?} but {} gives {:?}", k.name(), o, plain.case.kind.name(), base), case: case_name(plain.case), replay: format!("--replay {}|{}|{}", case_name(plain.case), plan_str(&gp), sched_str(&s)), text: plain.case.prog.text.to_string() });
+                                }
+                            }
+                        }
                     }
                 }
             }
